@@ -76,7 +76,7 @@ impl Ctx {
         !self.violations.is_empty()
     }
 
-    fn write_replay<C: Serialize>(&mut self, engine: &str, case: &C, message: &str, origin: &str) -> PathBuf {
+    pub fn write_replay<C: Serialize>(&mut self, engine: &str, case: &C, message: &str, origin: &str) -> PathBuf {
         let body = json!({
             "property": self.prop.name(),
             "engine": engine,
@@ -92,7 +92,7 @@ impl Ctx {
         path
     }
 
-    fn absorb(&mut self, name: &str, acc: Acc, extra: serde_json::Value, t0: Instant) {
+    pub fn absorb(&mut self, name: &str, acc: Acc, extra: serde_json::Value, t0: Instant) {
         self.phases.push(json!({
             "phase": name,
             "evaluations": acc.evaluations,
